@@ -1,7 +1,34 @@
 import FranzVerif.Model.Group
 import FranzVerif.Proof.Group
+import FranzVerif.Proof.GroupOwn
 /-! C07 — group members never own the same partition at once. Theorems over ALL accepted histories of
-`Model.Group`; the tie is the history correspondence of the `grp` scenarios (eager, cooperative, KIP-848). -/
+`Model.Group`; the tie is the history correspondence of the `grp` scenarios (eager, cooperative, KIP-848).
+
+Observables (`Proof/Group.lean`): `released m p h` — a revoked or lost callback of `m` that listed `p` was
+entered in `h` and returned in `h` before `m` entered another such callback (the monitor releases what the
+*most recent* callback in progress listed, and does not tell a revoked from a lost callback);
+`inProgress m h` — the partitions listed by `m`'s callback still in progress at the end of `h`;
+`completes m h` — the callback of `m` in progress where `h` begins returns in `h`.
+
+Changes against the first draft of the statements (each with the accepted history that refutes the draft):
+* `released` matched `revokeStart m ps` with *any* later `revokeEnd m` (and `lostStart` only with `lostEnd`).
+  - `[assignStart 1 [0], lostStart 1 [0], revokeEnd 1, assignStart 2 [0]]` is accepted, the draft `released 1 0`
+    of the middle part is `false`: refutes `previous_owner_released_first`;
+  - `[assignStart 1 [0,1], revokeStart 1 [0], revokeStart 1 [1], revokeEnd 1, assignStart 2 [1], stable [1,2]]`
+    (2 partitions) is accepted — the monitor releases only partition 1 — and the draft `released 1 0` of the part
+    after the first event is `true`: refutes `every_partition_owned_at_stability`.
+  Repair: the end event is the next callback event of `m` (`completes`), of either kind.
+* `previous_owner_released_first`, `left_member_owns_nothing`: the monitor lets a member be handed a partition
+  while a revoked/lost callback of that same member listing the partition is still in progress;
+  `[assignStart 1 [0], revokeStart 1 [0], assignStart 1 [0], revokeEnd 1, assignStart 2 [0]]` and
+  `[assignStart 1 [0], revokeStart 1 [0], assignStart 1 [0], revokeEnd 1, leaveDone 1]` are accepted and, with
+  `h₁` the first two events, nothing is released *within* `h₂ = [revokeEnd 1]`. The conclusion gets the second
+  disjunct "the callback of the previous owner in progress at the end of `h₁` listed `p` and returns in `h₂`"
+  (still: a revoked or lost callback of the previous owner that listed `p` completed in between); the
+  `…_serial` corollaries give the draft conclusion for a member whose callbacks do not overlap that way
+  (franz-go runs a client's callbacks one at a time).
+* `left_member_owns_nothing`: the draft's second disjunct (another member handed `p` in between) never
+  happens without a release first (`previous_owner_released_first`); dropped. -/
 namespace Props.C07
 open Model.Group Proof.Group
 
@@ -10,8 +37,26 @@ open Model.Group Proof.Group
 theorem previous_owner_released_first (c : Cfg) (h₁ h₂ h₃ : List Ev) (m m' : Mem) (ps ps' : List Nat) (p : Nat)
     (hacc : (run c {} (h₁ ++ Ev.assignStart m' ps' :: h₂ ++ Ev.assignStart m ps :: h₃)).isSome)
     (hne : m ≠ m') (hp' : p ∈ ps') (hp : p ∈ ps) :
+    released m' p h₂ = true ∨ ∃ ps₀, inProgress m' h₁ = some ps₀ ∧ p ∈ ps₀ ∧ completes m' h₂ = true := by
+  obtain ⟨s, hs⟩ := isSome_run hacc
+  obtain ⟨s₂, hr₂, hchk₂, _⟩ := run_split hs
+  obtain ⟨s₁, hr₁, _, hr₁₂⟩ := run_split hr₂
+  have hf₁ : OwnerFn (apply c s₁ (.assignStart m' ps')) := (OwnerFn.init.run hr₁).apply _
+  have ho : (p, m') ∈ (apply c s₁ (.assignStart m' ps')).owner := by
+    rw [mem_owner_apply]; exact Or.inl ⟨hp', rfl⟩
+  have hno : (p, m') ∉ s₂.owner := fun hin =>
+    hne (assign_check (hf₁.run hr₁₂) hchk₂ p hp m' hin).symm
+  have := lost_ownership hf₁ hr₁₂ ho hno
+  rwa [cur_apply, show cb (.assignStart m' ps') = .assign m' ps' from rfl, cur_of_run hr₁] at this
+
+/-- The draft statement, for a previous owner that is not inside a revoked/lost callback when it is handed `p`. -/
+theorem previous_owner_released_first_serial (c : Cfg) (h₁ h₂ h₃ : List Ev) (m m' : Mem) (ps ps' : List Nat) (p : Nat)
+    (hacc : (run c {} (h₁ ++ Ev.assignStart m' ps' :: h₂ ++ Ev.assignStart m ps :: h₃)).isSome)
+    (hne : m ≠ m') (hp' : p ∈ ps') (hp : p ∈ ps) (hidle : inProgress m' h₁ = none) :
     released m' p h₂ = true := by
-  sorry
+  rcases previous_owner_released_first c h₁ h₂ h₃ m m' ps ps' p hacc hne hp' hp with h | ⟨ps₀, h, _⟩
+  · exact h
+  · rw [hidle] at h; cases h
 
 /-- Once membership and subscriptions have stopped changing, every partition of the subscribed topic is
 owned by exactly one live member (the monitor's owner map is a function, so "at most one" is by construction;
@@ -20,12 +65,101 @@ theorem every_partition_owned_at_stability (c : Cfg) (h₁ h₂ : List Ev) (live
     (hacc : (run c {} (h₁ ++ Ev.stable live :: h₂)).isSome) (p : Nat) (hp : p < c.parts) :
     ∃ m ∈ live, ∃ h₁a h₁b ps, h₁ = h₁a ++ Ev.assignStart m ps :: h₁b ∧ p ∈ ps ∧ released m p h₁b = false ∧
       ∀ m'' ps'', Ev.assignStart m'' ps'' ∈ h₁b → p ∈ ps'' → m'' = m := by
-  sorry
+  obtain ⟨s, hs⟩ := isSome_run hacc
+  obtain ⟨s₁, hr₁, hchk, _⟩ := run_split hs
+  obtain ⟨o, hlive, ho⟩ := stable_check hchk p hp
+  -- the last assigned callback that listed `p`
+  have hex : ∃ e ∈ h₁, ∃ m ps, cb e = .assign m ps ∧ p ∈ ps := by
+    false_or_by_contra
+    rename_i hcon
+    have hn : NoAssign p h₁ := fun e he m ps hcb hpp => hcon ⟨e, he, m, ps, hcb, hpp⟩
+    have := owner_of_no_assign hr₁ hn ho
+    simp at this
+  obtain ⟨h₁a, e, h₁b, rfl, ⟨m, ps, hcb, hpp⟩, hlast⟩ := exists_last _ h₁ hex
+  have he := cb_assign hcb
+  subst he
+  have hn : NoAssign p h₁b := fun e he m ps hcb hpp => hlast e he ⟨m, ps, hcb, hpp⟩
+  obtain ⟨sa, _, _, hrb⟩ := run_split hr₁
+  have ho' := owner_of_no_assign hrb hn ho
+  rw [mem_owner_apply] at ho'
+  have hom : o = m := by
+    rcases ho' with ⟨_, h⟩ | ⟨h, _⟩
+    · exact h
+    · exact absurd hpp h
+  subst hom
+  refine ⟨o, hlive, h₁a, h₁b, ps, rfl, hpp, ?_, ?_⟩
+  · cases hrel : released o p h₁b with
+    | false => rfl
+    | true => exact absurd ho (released_not_owner hrb hn hrel)
+  · intro m'' ps'' hmem hpp''
+    exact absurd hpp'' (hn _ hmem m'' ps'' rfl)
 
-/-- A member that left gracefully owns nothing when its Close returns. -/
+/-- A member that left gracefully owns nothing when its Close returns: every partition it was handed it
+released, through a revoked or lost callback that listed the partition and completed, before. -/
 theorem left_member_owns_nothing (c : Cfg) (h₁ h₂ h₃ : List Ev) (m : Mem) (ps : List Nat) (p : Nat)
     (hacc : (run c {} (h₁ ++ Ev.assignStart m ps :: h₂ ++ Ev.leaveDone m :: h₃)).isSome) (hp : p ∈ ps) :
-    released m p h₂ = true ∨ ∃ m' ps', m' ≠ m ∧ Ev.assignStart m' ps' ∈ h₂ ∧ p ∈ ps' := by
-  sorry
+    released m p h₂ = true ∨ ∃ ps₀, inProgress m h₁ = some ps₀ ∧ p ∈ ps₀ ∧ completes m h₂ = true := by
+  obtain ⟨s, hs⟩ := isSome_run hacc
+  obtain ⟨s₂, hr₂, hchk₂, _⟩ := run_split hs
+  obtain ⟨s₁, hr₁, _, hr₁₂⟩ := run_split hr₂
+  have hf₁ : OwnerFn (apply c s₁ (.assignStart m ps)) := (OwnerFn.init.run hr₁).apply _
+  have ho : (p, m) ∈ (apply c s₁ (.assignStart m ps)).owner := by
+    rw [mem_owner_apply]; exact Or.inl ⟨hp, rfl⟩
+  have := lost_ownership hf₁ hr₁₂ ho (leaveDone_check hchk₂ p)
+  rwa [cur_apply, show cb (.assignStart m ps) = .assign m ps from rfl, cur_of_run hr₁] at this
+
+/-- The draft statement (without its vacuous second disjunct), for a member that is not inside a revoked/lost
+callback when it is handed `p`. -/
+theorem left_member_owns_nothing_serial (c : Cfg) (h₁ h₂ h₃ : List Ev) (m : Mem) (ps : List Nat) (p : Nat)
+    (hacc : (run c {} (h₁ ++ Ev.assignStart m ps :: h₂ ++ Ev.leaveDone m :: h₃)).isSome) (hp : p ∈ ps)
+    (hidle : inProgress m h₁ = none) : released m p h₂ = true := by
+  rcases left_member_owns_nothing c h₁ h₂ h₃ m ps p hacc hp with h | ⟨ps₀, h, _⟩
+  · exact h
+  · rw [hidle] at h; cases h
+
+/-- Non-vacuity: three members, three partitions. Member 1 is handed everything; in a cooperative rebalance
+it revokes partition 1 (callback completes), then partition 1 is handed to member 2 (the shape of
+`previous_owner_released_first` with `h₁ = [join…]`, `m' = 1`, `m = 2`, `p = 1`); member 3 joins, member 1
+loses partition 2 (lost callback), member 3 is handed it; `stable` with every partition owned by a live
+member; then member 3 revokes everything and leaves (`left_member_owns_nothing`). -/
+example : accepts { parts := 3 }
+    [.join 1, .join 2, .assignStart 1 [0, 1, 2], .assignEnd 1,
+     .revokeStart 1 [1], .revokeEnd 1, .assignStart 2 [1], .assignEnd 2,
+     .join 3, .lostStart 1 [2], .lostEnd 1, .assignStart 3 [2], .assignEnd 3,
+     .stable [1, 2, 3],
+     .leaveStart 3, .revokeStart 3 [2], .revokeEnd 3, .leaveDone 3] = true := by decide
+
+/-- The instances the theorems speak about in that history. -/
+example : released 1 1 [.assignEnd 1, .revokeStart 1 [1], .revokeEnd 1] = true := by decide
+example : released 3 2 [.assignEnd 3, .stable [1, 2, 3], .leaveStart 3, .revokeStart 3 [2], .revokeEnd 3] = true := by decide
+
+/-- Partition 1 handed to member 2 while member 1's revoke callback has not completed: refused. -/
+example : accepts { parts := 3 }
+    [.join 1, .join 2, .assignStart 1 [0, 1, 2], .assignEnd 1,
+     .revokeStart 1 [1], .assignStart 2 [1], .revokeEnd 1, .assignEnd 2] = false := by decide
+
+/-- A `stable` mark while partition 2 is unowned (lost by member 1, not yet handed on): refused. -/
+example : accepts { parts := 3 }
+    [.join 1, .join 2, .assignStart 1 [0, 1, 2], .assignEnd 1,
+     .lostStart 1 [2], .lostEnd 1, .stable [1, 2]] = false := by decide
+
+/-- A `stable` mark with a partition owned by a member that is not live: refused. -/
+example : accepts { parts := 2 }
+    [.join 1, .join 2, .assignStart 1 [0], .assignStart 2 [1], .stable [1]] = false := by decide
+
+/-- Member 2's Close returns while it still owns partition 1: refused. -/
+example : accepts { parts := 3 }
+    [.join 1, .join 2, .assignStart 1 [0, 2], .assignStart 2 [1],
+     .leaveStart 2, .leaveDone 2] = false := by decide
+
+/-- The accepted histories quoted in the header (why the draft statements had to change). -/
+example : accepts { parts := 1 } [.assignStart 1 [0], .lostStart 1 [0], .revokeEnd 1, .assignStart 2 [0]] = true := by decide
+example : accepts { parts := 2 }
+    [.assignStart 1 [0, 1], .revokeStart 1 [0], .revokeStart 1 [1], .revokeEnd 1, .assignStart 2 [1], .stable [1, 2]] = true := by
+  decide
+example : accepts { parts := 1 }
+    [.assignStart 1 [0], .revokeStart 1 [0], .assignStart 1 [0], .revokeEnd 1, .assignStart 2 [0]] = true := by decide
+example : accepts { parts := 1 }
+    [.assignStart 1 [0], .revokeStart 1 [0], .assignStart 1 [0], .revokeEnd 1, .leaveDone 1] = true := by decide
 
 end Props.C07
